@@ -434,7 +434,9 @@ RULE = (
     "errors='dxfreplace') with one write per piece, and the byte level LF<->CRLF conversions; X10 the writer: document states "
     "(new / loaded, version, doc.encoding, header before) built on real documents -> $ACADVER, $DWGCODEPAGE and codec of the bytes "
     "of the saved file, and BinaryTagWriter.write_str on preformatted strings with U+2028/U+2029/NEL/VT/FF/FS..RS/CR in the "
-    "values. non-trivial = reaches the handler / a match / a non-default table "
+    "values; X11 whole tag streams: real BinaryTagWriter -> bytes and binary_tags_loader + decode_dxf_unicode -> tags vs codec "
+    "model + C03's framing model (encodeTags/encAll, decAll/decodeTag), real TagWriter text and ascii_tags_loader vs "
+    "asciiFileText / asciiReadTags. non-trivial = reaches the handler / a match / a non-default table "
     "branch; distinct by hash of the request line. oracle: real Drawing.saveas -> ezdxf.readfile / recover.readfile round "
     "trips of TEXT, MTEXT, layer / block / text style names, INSERT references, ATTRIB tag and text, XDATA strings and header "
     "variables for R12/R2000/R2004 x 14 code pages and R2007+ "
@@ -488,7 +490,9 @@ OPEN = [
     "MIF: `_decode_mif` converts parts that merely start with \\M+ (modelled as is, unreachable without a full match in the "
     "recover loader); page 4 is spelled cp1391 in the source (no such codec; Johab is cp1361), so \\M+4XXXX is never decoded "
     "(mif_pages_as_tabulated): both outside the property (strings with \\M+ are excluded), not listed as findings",
-    "the tag loaders themselves are not modelled here (C03/C08); Windows line ends (CRLF) are not in the framing theorems",
+    "whole tag streams are now composed with C03's models (binary_file_text_roundtrip over encAll/decAll, "
+    "ascii_file_text_roundtrip over showCode/pairLines); still open: points / binary chunks inside ASCII files, comments (999), "
+    "the structure layer above tags (C01/C08), Windows line ends (CRLF) in the ASCII theorem",
 ]
 
 
@@ -1033,6 +1037,47 @@ def impl_write_str(t: str) -> str:
     return ";".join(f"{cps(str(c))}:{cps(v)}" for c, v in rec)
 
 
+# ---------------------------------------------------------------------- whole binary tag streams
+def binfile_cases(ctx):
+    d = gen_data()
+    rng = ctx.rng("binfile")
+    key = dict(d["enc2cp"])
+    for enc in d["codecs"]:
+        for k in range(ctx.n(12, 120)):
+            ver = ["AC1009", "AC1015", "AC1018"][k % 3]
+            tags = [(0, "SECTION"), (2, "HEADER"), (9, "$ACADVER"), (1, ver), (9, "$DWGCODEPAGE"), (3, "ANSI_" + key[enc]), (0, "ENDSEC")]
+            for _ in range(rng.randint(1, 5)):
+                if rng.random() < 0.7:
+                    tags.append((rng.choice([1, 2, 3, 6, 7, 8, 100, 300, 410, 1000, 1001]), sample_text(rng, enc, rng.randint(0, 4))))
+                else:
+                    tags.append((rng.choice([70, 71, 62, 280, 1070]), rng.randrange(0, 120)))
+            tags.append((0, "EOF"))
+            yield enc, ver, tags
+
+
+def impl_binfile(enc: str, ver: str, tags) -> bytes:
+    import io
+    from ezdxf.lldxf.tagwriter import BinaryTagWriter
+
+    stream = io.BytesIO()
+    w = BinaryTagWriter(stream, dxfversion=ver, encoding=enc)
+    w.write_signature()
+    for c, v in tags:
+        w.write_tag2(c, v)
+    return stream.getvalue()
+
+
+def impl_binread(data: bytes) -> str:
+    from ezdxf.lldxf.encoding import decode_dxf_unicode
+    from ezdxf.lldxf.tagger import binary_tags_loader
+
+    try:
+        return ";".join(f"{t.code}:t:{cps(decode_dxf_unicode(t.value))}" if isinstance(t.value, str) else f"{t.code}:i:{t.value}"
+                        for t in binary_tags_loader(data))
+    except Exception as e:  # noqa
+        return "err " + exc_name(e)
+
+
 def correspond(ctx):
     from ezdxf.tools import codepage
 
@@ -1208,6 +1253,41 @@ def correspond(ctx):
         ctx.hist("X10 writer", "write_str")
         cases.append((f"writestr|{cps(t)}", impl_write_str(t), any(c in t for c in "\u2028\u2029\x85\x0b\x0c\x1c\x1d\x1e\r")))
     ctx.correspond("X10 writer", "C09", cases)
+
+    # ---- X11 whole Binary DXF tag streams: real BinaryTagWriter / binary_tags_loader vs codec model + C03's framing model
+    cases = []
+    for enc, ver, tags in binfile_cases(ctx):
+        r12 = 1 if ver <= "AC1009" else 0
+        data = impl_binfile(enc, ver, tags)
+        req_tags = ";".join(f"{c}:t:{cps(v)}" if isinstance(v, str) else f"{c}:i:{v}" for c, v in tags)
+        ctx.hist("X11 binary file", "write")
+        cases.append((f"binfile|{r12}|{enc}|{req_tags}", "ok " + nat_list(data[22:]), True))
+        ctx.hist("X11 binary file", "read")
+        cases.append((f"binread|{r12}|{enc}|{nat_list(data[22:])}", impl_binread(data), True))
+    # ASCII: TagWriter.write_tag2 ("%3d\\n%s\\n") and ascii_tags_loader + decode_dxf_unicode vs asciiFileText / asciiReadTags
+    import io as _io
+    from ezdxf.lldxf.encoding import decode_dxf_unicode as _dec
+    from ezdxf.lldxf.tagger import ascii_tags_loader
+    from ezdxf.lldxf.tagwriter import TagWriter
+
+    for enc, ver, tags in binfile_cases(ctx):
+        tags = [(c, v) for c, v in tags if isinstance(v, str)]
+        st = _io.StringIO()
+        w = TagWriter(st)
+        for c_, v in tags:
+            w.write_tag2(c_, v)
+        text = st.getvalue()
+        ctx.hist("X11 binary file", "ascii-write")
+        cases.append((f"asciitext|{';'.join(f'{c_}:{cps(v)}' for c_, v in tags)}", cps(text), True))
+        # what the reader sees after the codec: escapes instead of unencodable characters
+        seen = text.encode(enc, "dxfreplace").decode(enc)
+        try:
+            out = "ok " + ";".join(f"{t.code}:{cps(_dec(t.value))}" for t in ascii_tags_loader(_io.StringIO(seen), skip_comments=False))
+        except Exception as e:  # noqa
+            out = "err " + exc_name(e)
+        ctx.hist("X11 binary file", "ascii-read")
+        cases.append((f"asciiread|{cps(seen)}", out, True))
+    ctx.correspond("X11 binary file", "C09", cases)
 
     # ---- X8 MIF: decode_mif_to_unicode, re.split(MIF_ENCODED), the complete string branch of the recover loader
     cases = []
